@@ -209,8 +209,9 @@ def worker_main(args):
     return r
 
 
-def confirm(prop, case, times=3):
-    """re-run the case in fresh driver processes; returns list of details (None = passed)"""
+def confirm(prop, case, times=3, stop_after=None):
+    """re-run the case in fresh driver processes; returns list of details (None = passed).  stop_after: stop as soon as that many
+    re-runs have failed"""
     out = []
     for i in range(times):
         ctx = Ctx(prop, 'replay', 0, 900 + i, getattr(prop, 'FLAVOR', 'asan'))
@@ -218,13 +219,29 @@ def confirm(prop, case, times=3):
             out.append(evaluate(ctx, case))
         finally:
             ctx.close()
+        if stop_after and sum(1 for d in out if d is not None) >= stop_after:
+            break
     return out
 
 
-def replay_file(prop, path):
+def confirm_policy(prop):
+    """(times, need): a failure found by the search is a violation when `need` of up to `times` re-runs in fresh processes fail again.
+    Default 3 of 3 (the checks are deterministic).  A property whose failures depend on the thread schedule (C07) declares
+    CONFIRM = (times, need): its oracle is deterministic (output of a thread vs. the sequential output), the occurrence is not."""
+    return getattr(prop, 'CONFIRM', (3, 3))
+
+
+def replay_file(prop, path, cap=None):
     with open(path) as f:
         rec = json.load(f)
     case = unjson(rec['case'])
+    times, need = confirm_policy(prop)
+    if need < times:
+        times = min(times, cap) if cap else times
+        # schedule-dependent failure: the saved input is re-run until it fails (at most `times` times)
+        ds = confirm(prop, case, times, stop_after=1)
+        bad = [d for d in ds if d is not None]
+        return rec, case, (bad[0] if bad else None)
     ds = confirm(prop, case, 1)
     return rec, case, ds[0]
 
@@ -240,7 +257,7 @@ def run_regress(prop, kf, out):
         if not name.endswith('.json'):
             continue
         path = os.path.join(d, name)
-        rec, case, detail = replay_file(prop, path)
+        rec, case, detail = replay_file(prop, path, cap=12)
         n += 1
         expect = rec.get('expect', 'pass')
         if detail is None:
@@ -310,9 +327,10 @@ def main(modname, tier, seed=None):
         if r['failure']:
             f = r['failure']
             case = unjson(f['case'])
-            ds = confirm(prop, case, 3)
+            times, need = confirm_policy(prop)
+            ds = confirm(prop, case, times, stop_after=need)
             nfail = sum(1 for d in ds if d is not None)
-            if nfail == 3:
+            if nfail >= need:
                 d = [x for x in ds if x is not None][0]
                 sig = prop.signature(case, d)
                 m = kf.match(prop.ID, sig)
